@@ -272,6 +272,53 @@ class FsPath:
         return f"FsPath({self._p!r})"
 
 
+class FileClock:
+    """Simulated file-timestamp clock.  While frozen, every stat result the process sees carries one and the same
+    modification time: the limit case of a coarse-granularity (1 s ext3, 2 s FAT, tick-granular tmpfs) or stepped-back
+    wall clock, under which two writes to two files cannot be told apart by their timestamps."""
+
+    FROZEN = 1_000_000_000
+    _SEQ = ("st_mode", "st_ino", "st_dev", "st_nlink", "st_uid", "st_gid", "st_size")
+
+    def __init__(self):
+        self.real = None
+        self.calls = 0
+
+    def _coarse(self, st):
+        seq = list(st)[:10]
+        seq[8] = self.FROZEN
+        extra = {k: getattr(st, k) for k in dir(st) if k.startswith("st_") and k not in self._SEQ}
+        extra["st_mtime"] = float(self.FROZEN)
+        extra["st_mtime_ns"] = self.FROZEN * 10**9
+        return os.stat_result(tuple(seq), extra)
+
+    def freeze(self):
+        if self.real is not None:
+            return
+        self.real = (os.stat, os.lstat, os.fstat)
+        r_stat, r_lstat, r_fstat = self.real
+        clock = self
+
+        def stat(path, *a, **kw):
+            clock.calls += 1
+            return clock._coarse(r_stat(path, *a, **kw))
+
+        def lstat(path, *a, **kw):
+            clock.calls += 1
+            return clock._coarse(r_lstat(path, *a, **kw))
+
+        def fstat(fd):
+            clock.calls += 1
+            return clock._coarse(r_fstat(fd))
+
+        os.stat, os.lstat, os.fstat = stat, lstat, fstat
+
+    def thaw(self):
+        if self.real is not None:
+            os.stat, os.lstat, os.fstat = self.real
+            self.real = None
+
+
 class Scratch:
     """Per-run scratch tree R/{a,b,a/sub} on tmpfs; owns the process cwd."""
 
@@ -286,6 +333,7 @@ class Scratch:
             os.makedirs(os.path.join(self.root, d))
         self.cwd = "a"
         self._home = os.environ.get("HOME")
+        self.clock = FileClock()
         os.chdir(self.dir("a"))
 
     def dir(self, d):
@@ -340,6 +388,7 @@ class Scratch:
         raise HarnessError(style)
 
     def cleanup(self):
+        self.clock.thaw()
         if self._home is not None:
             os.environ["HOME"] = self._home
         try:
